@@ -1,5 +1,5 @@
 (* C05 - Termination happens once, after the last other callback, and is final. *)
-From Ergo Require Import Common.Base Sched.Model Sched.CountFacts Sched.TokenInv Sched.TokenProofs.
+From Ergo Require Import Common.Base Sched.Model Sched.CountFacts Sched.TokenInv Sched.TokenProofs Sched.ReasonProofs.
 
 Definition reach sched named selfs initok others := run sched (init_cfg named selfs initok others).
 
@@ -47,6 +47,19 @@ Theorem C05_terminate_alone : forall sched named selfs initok others,
   count open_cb (thr (reach sched named selfs initok others)) <= 1.
 Proof. intros. apply Inv_no_overlap. apply Inv_reachable. assumption. Qed.
 Print Assumptions C05_terminate_alone.
+
+(* the reason handed to unregisterProcess (hence to links and monitors) and to the terminate
+   callback reflects a cause that occurred: 'kill' only if some Node.Kill executed its swap,
+   'panic' only if the callback of a handled message panicked, any other reason only if the
+   callback of a handled message returned exactly that error *)
+Theorem C05_reason : forall sched named selfs initok others r,
+  Forall (fun p => init_pc p = true) others ->
+  let c := reach sched named selfs initok others in
+  treason (sh c) = Some r ->
+  (r = rkill /\ killed (sh c) = true) \/
+  (exists m, In (mid m) (handled (sh c)) /\ (mbeh m = BErr r \/ (mbeh m = BPanic /\ r = rpanic))).
+Proof. intros. eapply reason_reflects_cause; eauto. Qed.
+Print Assumptions C05_reason.
 
 (* non-vacuity: handler error racing two Kill calls: terminated once, reason = the error *)
 Example C05_example :
